@@ -77,7 +77,9 @@ partial def treeS : Tree → SExp
   | .atom (.tuple xs) => .list (.atom "tuple" :: xs.map ofScalar)
   | .node .list _ kids => .list (.atom "list" :: kids.map treeS)
   | .node .set _ kids => .list (.atom "set" :: kids.map treeS)
-  | .node .dict ks kids => .list (.atom "dict" :: (ks.zip kids).map fun (k, t) => .list [.str k, treeS t])
+  | .node .dict ks kids =>
+    -- the order of the keys of a dict is not compared (a plist sorts them): the harness sorts a `(set …)`
+    .list [.atom "dict", .list (.atom "set" :: (ks.zip kids).map fun (k, t) => .list [.str k, treeS t])]
   | .node (.obj cls) ks kids =>
     .list (.atom "obj" :: .atom cls :: (ks.zip kids).map fun (k, t) => .list [.str k, treeS t])
 
